@@ -124,16 +124,16 @@ func (c structCall) cfgSexp() string {
 func (c structCall) toCase(tags []string, probe string) Case {
 	impl := c.run()
 	cfg := c.cfgSexp()
-	src := encodeSrc(c.src)
+	src, sp := encodeSrcCtx(c.src)
 	return Case{
 		OpFn: func(ext string) string { return "struct " + cfg + " " + ext + " " + src + probe },
-		Impl: impl, Tags: tags, Nontrivial: impl != "nil",
+		Impl: impl, Tags: tags, Nontrivial: impl != "nil", Sprint: sp,
 	}
 }
 
 func varCase(src interface{}, rules []string, tags []string, probe string) Case {
 	impl := guard(func() string { return errStr(valid.Var(src, rules...)) })
-	s := encodeSrc(src)
+	s, sp := encodeSrcCtx(src)
 	rs := make([]string, len(rules))
 	for i, r := range rules {
 		rs[i] = X(r)
@@ -142,7 +142,7 @@ func varCase(src interface{}, rules []string, tags []string, probe string) Case 
 		OpFn: func(ext string) string {
 			return "var " + N("rules", rs...) + " " + N("lfns") + " " + encodeFns("gfns", globalFns) + " " + ext + " " + s + probe
 		},
-		Impl: impl, Tags: tags, Nontrivial: impl != "nil",
+		Impl: impl, Tags: tags, Nontrivial: impl != "nil", Sprint: sp,
 	}
 }
 
@@ -153,13 +153,13 @@ func mapCase(src interface{}, rm valid.RM, local map[string]string, tags []strin
 		}
 		return errStr(valid.MapFn(src, rm, fnMap(local)))
 	})
-	s := encodeSrc(src)
+	s, sp := encodeSrcCtx(src)
 	r := encodeRM(rm)
 	return Case{
 		OpFn: func(ext string) string {
 			return "map " + r + " " + encodeFns("lfns", local) + " " + encodeFns("gfns", globalFns) + " " + ext + " " + s + probe
 		},
-		Impl: impl, Tags: tags, Nontrivial: impl != "nil",
+		Impl: impl, Tags: tags, Nontrivial: impl != "nil", Sprint: sp,
 	}
 }
 
